@@ -10,7 +10,8 @@ Core Lean only (this file is compiled into the `oracle_c17` executable).
 * Part B — the answer store (`qualification.addAnswers/removeAnswers/persist/restore`, qualification.go:40-117, over
   `EpochDb.WriteAnswers/ReadAnswers`, epoch_db.go:150-204) and `ApplyNewEpoch` with `epochApplyingCache`
   (ceremony.go:1030-1260), plus a node-level model of chain growth / reset with the flag `clearOnReset`
-  (false = the code as found: the `BlockchainResetEvent` handler, ceremony.go:180-197, keeps the cache).
+  (true = the `BlockchainResetEvent` handler, ceremony.go:183-204, drops the cache; false = the code as found before
+  the repair of finding F4, where the handler kept it).
 -/
 namespace IdenaModel.Qual
 
@@ -74,15 +75,15 @@ def minFlipsForVerified : Nat := 13   -- common/network.go:34
 def minFlipsForHuman : Nat := 24      -- common/network.go:35
 
 /-- ceremony.go:1486-1497 `shortSessionScoreCheck` -/
-def shortCheck (i : DecIn) : Bool :=
-  if !i.u12 then i.sc.shortGeMin
-  else if i.shortFlips = 1 then true
-  else if i.shortFlips = 2 then i.sc.shortPos
-  else i.sc.shortGeMin
+def shortCheck (u12 : Bool) (shortFlips : Nat) (sc : ScoreFlags) : Bool :=
+  if !u12 then sc.shortGeMin
+  else if shortFlips = 1 then true
+  else if shortFlips = 2 then sc.shortPos
+  else sc.shortGeMin
 
 /-- ceremony.go:1484-1626, same clause order -/
 def determineNewIdentityState (i : DecIn) : IdState :=
-  let sc := shortCheck i
+  let sc := shortCheck i.u12 i.shortFlips i.sc
   let longOk := i.sc.longGeMin
   let totOk := i.sc.totalGeMin
   let humOk := i.sc.totalGeHuman
@@ -351,7 +352,8 @@ def nonCandValue (e : EvalIn) (c : NonCandIn) : Nat × CacheValue :=
              birthday := determineIdentityBirthday e.epoch c.prev c.birthday st,
              missed := true, participated := false, delegatee := c.delegatee })
 
-/-- ceremony.go:94-100 `epochApplyingCache` (the reward-related members are functions of the same values) -/
+/-- ceremony.go:95-103 `epochApplyingCache`: the values in the order in which they were applied (`applyingOrder`);
+the reward-related members are functions of the same values -/
 structure CacheEntry where
   values : List (Nat × CacheValue)
   failed : Bool
@@ -368,35 +370,43 @@ def validatedCount (vs : List (Nat × CacheValue)) : Nat := (vs.filter (fun v =>
 def applyAll {S : Type} (applyOne : S → Nat × CacheValue → S) (s : S) (vs : List (Nat × CacheValue)) : S :=
   vs.foldl applyOne s
 
+def insertByAddr (x : Nat × CacheValue) : List (Nat × CacheValue) → List (Nat × CacheValue)
+  | [] => [x]
+  | y :: ys => if x.1 ≤ y.1 then x :: y :: ys else y :: insertByAddr x ys
+
+/-- ceremony.go:1221-1228: `sort.Slice(applyingOrder, bytes.Compare …)` (addresses are distinct map keys) -/
+def sortByAddr : List (Nat × CacheValue) → List (Nat × CacheValue)
+  | [] => []
+  | x :: xs => insertByAddr x (sortByAddr xs)
+
 def cacheLookup (c : List (Nat × CacheEntry)) (h : Nat) : Option CacheEntry :=
   (c.find? (fun e => e.1 == h)).map (·.2)
 
-/-- first evaluation, ceremony.go:1068-1259.  `ord₁` is the iteration order of the Go map `epochApplyingValues`
-(a permutation chosen by the runtime). -/
-def evalMiss {S : Type} (applyOne : S → Nat × CacheValue → S) (ord₁ : List (Nat × CacheValue) → List (Nat × CacheValue))
-    (e : EvalIn) (s : S) : CacheEntry × EpochOut S :=
+/-- first evaluation, ceremony.go:1071-1285: candidates' values are applied in address order, then the
+non-candidates shard by shard (`e.nonCands` is that concatenation); the order is recorded in the cache entry -/
+def evalMiss {S : Type} (applyOne : S → Nat × CacheValue → S) (e : EvalIn) (s : S) : CacheEntry × EpochOut S :=
   let vals := e.cands.map (candValue e)
-  if validatedCount vals = 0 then                                  -- :1191
+  if validatedCount vals = 0 then                                  -- :1194 nobody validated: nothing is applied
     (⟨vals, true⟩, ⟨true, e.networkSize, s⟩)
   else
-    let s1 := applyAll applyOne s (ord₁ vals)                      -- :1213
+    let ordered := sortByAddr vals
+    let s1 := applyAll applyOne s ordered                          -- :1229
     let nvals := e.nonCands.map (nonCandValue e)
-    let s2 := applyAll applyOne s1 nvals                           -- :1225
-    (⟨vals ++ nvals, false⟩, ⟨false, validatedCount vals, s2⟩)
+    let s2 := applyAll applyOne s1 nvals                           -- :1247
+    (⟨ordered ++ nvals, false⟩, ⟨false, validatedCount ordered, s2⟩)
 
-/-- ceremony.go:1030-1260.  `ord₂` is the iteration order of the cached map on the hit path. -/
+/-- ceremony.go:1033-1285 -/
 def applyNewEpoch {S : Type} (applyOne : S → Nat × CacheValue → S)
-    (ord₁ ord₂ : List (Nat × CacheValue) → List (Nat × CacheValue))
     (cache : List (Nat × CacheEntry)) (height : Nat) (e : EvalIn) (s : S) :
     List (Nat × CacheEntry) × EpochOut S :=
   let miss := fun (_ : Unit) =>
-    let r := evalMiss applyOne ord₁ e s
+    let r := evalMiss applyOne e s
     ((height, r.1) :: cache.filter (fun x => x.1 != height), r.2)
   match cacheLookup cache height with
   | some c =>
-    if c.failed then (cache, ⟨true, e.networkSize, s⟩)             -- :1041
-    else if c.values.length > 0 then                               -- :1051
-      (cache, ⟨false, validatedCount c.values, applyAll applyOne s (ord₂ c.values)⟩)
+    if c.failed then (cache, ⟨true, e.networkSize, s⟩)             -- :1044
+    else if c.values.length > 0 then                               -- :1054 replay in the recorded order
+      (cache, ⟨false, validatedCount c.values, applyAll applyOne s c.values⟩)
     else miss ()
   | none => miss ()
 
@@ -408,7 +418,8 @@ structure NodeCfg (B S : Type) where
   evalIn : List B → EvalIn
   stateOf : List B → S
   applyOne : S → Nat × CacheValue → S
-  /-- false = as found (ceremony.go:180-197 does not touch `epochApplyingCache`) -/
+  /-- true = the repaired handler (ceremony.go:183-204 drops `epochApplyingCache`); false = the code as found before
+  the repair (finding F4), kept as a variant so that the witness theorem documents why the clearing is needed -/
   clearOnReset : Bool
 
 structure Node (B : Type) where
@@ -427,12 +438,12 @@ def Node.step {B S : Type} (cfg : NodeCfg B S) (n : Node B) : NodeOp B → Node 
   | .reset keep bs =>
     ({ chain := n.chain.take keep ++ bs, cache := if cfg.clearOnReset then [] else n.cache }, none)
   | .eval =>
-    let r := applyNewEpoch cfg.applyOne id id n.cache (n.chain.length + 1) (cfg.evalIn n.chain) (cfg.stateOf n.chain)
+    let r := applyNewEpoch cfg.applyOne n.cache (n.chain.length + 1) (cfg.evalIn n.chain) (cfg.stateOf n.chain)
     ({ n with cache := r.1 }, some r.2)
 
 /-- what a node that has only ever seen `chain` computes -/
 def pureEval {B S : Type} (cfg : NodeCfg B S) (chain : List B) : EpochOut S :=
-  (evalMiss cfg.applyOne id (cfg.evalIn chain) (cfg.stateOf chain)).2
+  (evalMiss cfg.applyOne (cfg.evalIn chain) (cfg.stateOf chain)).2
 
 def Node.run {B S : Type} (cfg : NodeCfg B S) : Node B → List (NodeOp B) → List (Node B × Option (EpochOut S))
   | _, [] => []
